@@ -21,7 +21,7 @@ VERIF = os.path.dirname(HERE)
 sys.path.insert(0, HERE)
 from mutants import MUTANTS  # noqa: E402
 
-ENV = dict(os.environ, GOFLAGS="-mod=mod", GOPROXY="off", GOSUMDB="off", GOTOOLCHAIN="local")
+ENV = dict(os.environ, GOFLAGS="-mod=mod", GOPROXY="off", GOSUMDB="off", GOTOOLCHAIN="local", VERIF_REPLAY_DIR="/verif/replays/.mut")
 
 
 def apply(root, m):
